@@ -435,6 +435,10 @@ fn self_ty_coq(imp: &str) -> Option<String> {
     if user().structs.contains_key(imp) || user().enums.contains_key(imp) {
         return Some(imp.to_string());
     }
+    // a tuple of type parameters `(A,B,C)`: the (left-nested) product of their value types
+    if let Some(cs) = tuple_components(imp) {
+        return Some(format!("({})", cs.iter().map(|c| format!("A_{}", c)).collect::<Vec<_>>().join(" * ")));
+    }
     Some(match imp {
         "u8" | "u16" | "u32" | "u64" | "u128" | "usize" | "NonZeroUsize" | "U256" | "U128" => "N".to_string(),
         "bool" => "bool".to_string(),
@@ -444,6 +448,13 @@ fn self_ty_coq(imp: &str) -> Option<String> {
         "Arc<T>" | "&T" => "A_T".to_string(),
         _ => return None,
     })
+}
+
+/// `(A,B,C)` with single upper-case type parameters as components
+fn tuple_components(imp: &str) -> Option<Vec<String>> {
+    let inner = imp.strip_prefix('(')?.strip_suffix(')')?;
+    let cs: Vec<String> = inner.split(',').filter(|c| !c.is_empty()).map(|c| c.to_string()).collect();
+    if cs.len() >= 2 && cs.iter().all(|c| c.len() == 1 && c.chars().all(|x| x.is_ascii_uppercase())) { Some(cs) } else { None }
 }
 
 /// byte width of an unsigned integer type
@@ -793,6 +804,9 @@ impl Cx {
             }
             Expr::Field(f) => {
                 let owner = self.ty_of(&f.base)?;
+                if let (Some(cs), Member::Unnamed(i)) = (tuple_components(&owner), &f.member) {
+                    return cs.get(i.index as usize).cloned();
+                }
                 let fs = user().structs.get(&owner)?;
                 let name = match &f.member { Member::Named(id) => id.to_string(), Member::Unnamed(i) => format!("f{}", i.index) };
                 fs.iter().find(|(n, _)| *n == name).map(|(_, t)| t.clone())
@@ -898,6 +912,23 @@ impl Cx {
             } else {
                 return Err(format!("cannot supply {} to the generic function {}", member, coq));
             }
+        }
+        Ok(all)
+    }
+
+    /// The dictionary members of a generic callee whose type parameter is instantiated (by turbofish, or by the
+    /// type of the argument) at the caller's type parameter `ct`: the caller's members of `ct`.
+    fn dict_args_for(&mut self, coq: &str, ct: &str) -> R<Vec<String>> {
+        let mut all = vec![];
+        for member in self.dict_sigs.get(coq).cloned().unwrap_or_default() {
+            let mem = member.split_once('_').map(|(_, b)| b.to_string()).unwrap_or_default();
+            if mem == "try_from_iter" {
+                return Err(format!("cannot supply {} to the generic function {} at {}", member, coq, ct));
+            }
+            if !self.dict_used.contains(&(ct.to_string(), mem.clone())) {
+                self.dict_used.push((ct.to_string(), mem.clone()));
+            }
+            all.push(format!("{}_{}", ct, mem));
         }
         Ok(all)
     }
@@ -1020,6 +1051,19 @@ impl Cx {
                             if user().structs.contains_key(&owner) {
                                 return Ok((format!("({}_f{} {})", owner, i.index, base), Pure));
                             }
+                        }
+                        if let Some(cs) = self.ty_of(&f.base).and_then(|t| tuple_components(&t)) {
+                            // component i of a left-nested product of arity n
+                            let n = cs.len();
+                            let k = i.index as usize;
+                            let mut t = base.clone();
+                            for _ in 0..(if k == 0 { n - 1 } else { n - 1 - k }) {
+                                t = format!("(fst {})", t);
+                            }
+                            if k > 0 {
+                                t = format!("(snd {})", t);
+                            }
+                            return Ok((t, Pure));
                         }
                         if i.index == 0 && base == "self" && self_ty_coq(&self.cur_imp).as_deref() == Some("bytes") {
                             // a newtype over a byte array (`FixedBytes(pub [u8; N])`, `Bloom(FixedBytes<256>)`, `Bytes`)
@@ -1263,6 +1307,11 @@ impl Cx {
                             && tr.as_ref().map(|t| k.contains(&format!("::{}::", t))).unwrap_or(true)).map(|(_, i)| i.clone()).collect();
                         if hits.len() == 1 {
                             let mut args = self.targs(&hits[0], &[]).unwrap_or_default();
+                            // a generic sibling (`<Self as Encode>::is_ssz_fixed_len()` in an impl for a tuple of
+                            // type parameters): its dictionary members are the caller's
+                            if ty == "Self" {
+                                args.extend(self.dict_args(&hits[0].coq)?);
+                            }
                             for a in &c.args {
                                 args.push(self.val(a)?);
                             }
@@ -1488,7 +1537,7 @@ impl Cx {
             return Ok((format!("bind ({}) {}", r, f), Comp));
         }
         if name == "ssz_append" || name == "ssz_bytes_len" {
-            if let Some(rt) = self.ty_of(&m.receiver) {
+            if let Some(rt) = self.ty_of(&m.receiver).filter(|t| !self.dict_params.contains(t)) {
                 // derive mode: a field or a matched payload of a known type
                 let f = self.td_fn(&rt, &name)?;
                 let mut args = vec![self.val(&m.receiver)?];
@@ -1507,7 +1556,7 @@ impl Cx {
                     }
                     return Ok((format!("{} {}", info.coq, args.join(" ")), Comp));
                 }
-            } else if let Some(d) = self.encode_dict() {
+            } else if let Some(d) = self.ty_of(&m.receiver).filter(|t| self.dict_params.contains(t)).or_else(|| self.encode_dict()) {
                 if !self.dict_used.contains(&(d.clone(), name.clone())) {
                     self.dict_used.push((d.clone(), name.clone()));
                 }
@@ -1531,6 +1580,7 @@ impl Cx {
                                 let conc: Option<String> = m.turbofish.as_ref().map(|tf| tf.args.to_token_stream().to_string().replace(' ', "")).or_else(|| self.expected_ty.clone());
                                 match (&conc, self.dict_sigs.get(&info.coq).map(|v| !v.is_empty()).unwrap_or(false)) {
                                     (Some(ct), true) if !self.dict_params.iter().any(|d| d == ct) => args.extend(self.td_inst(&info.coq, ct)?),
+                                    (Some(ct), true) => args.extend(self.dict_args_for(&info.coq, &ct.clone())?),
                                     _ => args.extend(self.dict_args(&info.coq)?),
                                 }
                                 args.push(var.clone());
@@ -2158,7 +2208,7 @@ impl Cx {
         match e {
             Expr::MethodCall(m) if m.method == "ssz_append" && m.args.len() == 1 => {
                 let bufv = match strip_refs(&m.args[0]) { Expr::Path(p) if p.path.segments.len() == 1 => coq_ident(&path_str(&p.path)), _ => return Ok(None) };
-                if let Some(rt) = self.ty_of(&m.receiver) {
+                if let Some(rt) = self.ty_of(&m.receiver).filter(|t| !self.dict_params.contains(t)) {
                     let f = self.td_fn(&rt, "ssz_append")?;
                     let r = self.val(&m.receiver)?;
                     return Ok(Some((bufv.clone(), format!("{} {} {}", f, r, bufv), true)));
@@ -2390,6 +2440,7 @@ impl Cx {
                 });
                 match (&conc, self.dict_sigs.get(&info.coq).map(|v| !v.is_empty()).unwrap_or(false)) {
                     (Some(ct), true) if !self.dict_params.iter().any(|d| d == ct) => avs.extend(self.td_inst(&info.coq, ct)?),
+                    (Some(ct), true) => avs.extend(self.dict_args_for(&info.coq, &ct.clone())?),
                     _ => avs.extend(self.dict_args(&info.coq)?),
                 }
                 avs.push(var.clone());
@@ -2836,6 +2887,45 @@ fn main() {
             Err(e) => println!("(* rs2v: cannot parse the derive expansion: {} *)", e),
         }
     }
+    // crate-expansion mode: `--crate-expanded <file>`: what rustc expands the crate itself to (the impls written by
+    // macros with repetitions: tuples); every impl of the expansion, whatever module it sits in, is made a
+    // top-level item of a pseudo-file
+    let crate_exp: Option<String> = argv.iter().position(|a| a == "--crate-expanded").and_then(|i| argv.get(i + 1).cloned());
+    if let Some(path) = &crate_exp {
+        let src = std::fs::read_to_string(path).unwrap_or_default();
+        match syn::parse_file(&src) {
+            Ok(f) => {
+                fn collect(items: &[Item], out: &mut Vec<Item>) {
+                    for it in items {
+                        match it {
+                            Item::Impl(_) => out.push(it.clone()),
+                            Item::Mod(m) => {
+                                if let Some((_, inner)) = &m.content {
+                                    if m.ident != "test" && m.ident != "tests" {
+                                        collect(inner, out);
+                                    }
+                                }
+                            }
+                            _ => {}
+                        }
+                    }
+                }
+                let mut flat = vec![];
+                collect(&f.items, &mut flat);
+                let file = syn::File { shebang: None, attrs: vec![], items: flat };
+                files.insert("<crate expansion>".to_string(), file);
+                for (arity, imp) in [(2, "(A,B)"), (3, "(A,B,C)"), (4, "(A,B,C,D)")] {
+                    for (tr, short, fns) in [("Encode", "enc", vec!["is_ssz_fixed_len", "ssz_fixed_len", "ssz_bytes_len", "ssz_append"]), ("Decode", "dec", vec!["is_ssz_fixed_len", "ssz_fixed_len", "from_ssz_bytes"])] {
+                        for name in fns {
+                            let coq = if name == "is_ssz_fixed_len" || name == "ssz_fixed_len" { format!("tuple{}_{}_{}", arity, short, name) } else { format!("tuple{}_{}", arity, name) };
+                            dyn_targets.push(Target { file: "<crate expansion>", imp, tr, name, coq: leak(coq) });
+                        }
+                    }
+                }
+            }
+            Err(e) => println!("(* rs2v: cannot parse the crate expansion: {} *)", e),
+        }
+    }
     let all_targets: Vec<&Target> = TARGETS.iter().chain(dyn_targets.iter()).collect();
     let _ = &dyn_records;
     let mut wanted: Vec<&str> = TARGETS.iter().map(|t| t.file).collect();
@@ -3036,7 +3126,7 @@ fn main() {
                             Type::Path(p) => path_last(&p.path),
                             _ => String::new(),
                         };
-                        let matches_imp = if t.imp.contains('<') || t.imp.contains('[') || t.imp.starts_with('&') { full == t.imp } else { last == t.imp };
+                        let matches_imp = if t.imp.contains('<') || t.imp.contains('[') || t.imp.starts_with('&') || t.imp.starts_with('(') { full == t.imp } else { last == t.imp };
                         if matches_imp {
                             for ii in &imp.items {
                                 if let ImplItem::Fn(m) = ii {
@@ -3294,11 +3384,11 @@ fn main() {
                 all_params.extend(dparams);
                 all_params.extend(params[n_t..].iter().cloned());
                 let _ = writeln!(text, "Definition {} {} :=\n{}.\n", t.coq, all_params.join(" "), indent(&b));
-                defs.push((t.coq.to_string(), text, b, t.file == "<derive expansion>"));
+                defs.push((t.coq.to_string(), text, b, t.file.starts_with('<')));
             }
             Err(e) => {
                 let _ = writeln!(text, "(* rs2v: UNTRANSLATABLE {} :: {}: {} *)\n", t.file, src_name, e.replace('"', "'").replace("*)", "* )").replace("(*", "( *"));
-                defs.push((t.coq.to_string(), text, String::new(), t.file == "<derive expansion>"));
+                defs.push((t.coq.to_string(), text, String::new(), t.file.starts_with('<')));
             }
         }
     }
